@@ -2,6 +2,7 @@ package sim
 
 import (
 	"fmt"
+	"regexp"
 	"sort"
 	"strings"
 	"time"
@@ -31,10 +32,10 @@ type selItem struct {
 	Flat bool   `json:"flat,omitempty"` // col: top-level field (reference applies)
 }
 
-func genC05Query(rng *simrt.Rand) (string, []selItem, bool) {
+func genC05Query(rng *simrt.Rand) (string, []selItem, bool, []int, string) {
+	where, widx, wconn := genC05WhereTerms(rng)
 	if rng.Bool(0.12) {
-		where := genC05Where(rng)
-		return "SELECT * FROM stream" + where, nil, true
+		return "SELECT * FROM stream" + where, nil, true, widx, wconn
 	}
 	pool := []selItem{
 		{SQL: "a", Out: "a", Kind: "col", Src: "a", Flat: true},
@@ -67,20 +68,90 @@ func genC05Query(rng *simrt.Rand) (string, []selItem, bool) {
 	for _, it := range items {
 		parts = append(parts, it.SQL)
 	}
-	return "SELECT " + strings.Join(parts, ", ") + " FROM stream" + genC05Where(rng), items, false
+	return "SELECT " + strings.Join(parts, ", ") + " FROM stream" + where, items, false, widx, wconn
 }
 
-func genC05Where(rng *simrt.Rand) string {
+// c05Terms: WHERE terms with an independent reference (judged only on rows that carry every
+// referenced column as a non-NULL value of the expected type, so NULL semantics stay out of it).
+type c05Term struct {
+	SQL    string
+	Fields []string
+	Eval   func(row map[string]any) bool
+}
+
+func numField(row map[string]any, k string) float64 { f, _ := toFloat(row[k]); return f }
+
+func likeRef(pattern string) func(string) bool {
+	var sb strings.Builder
+	sb.WriteString("^")
+	for _, ch := range pattern {
+		switch ch {
+		case '%':
+			sb.WriteString("(?s:.*)")
+		case '_':
+			sb.WriteString("(?s:.)")
+		default:
+			sb.WriteString(regexp.QuoteMeta(string(ch)))
+		}
+	}
+	sb.WriteString("$")
+	re := regexp.MustCompile(sb.String())
+	return re.MatchString
+}
+
+func likeTerm(pattern string) c05Term {
+	m := likeRef(pattern)
+	return c05Term{"s LIKE '" + pattern + "'", []string{"s"}, func(r map[string]any) bool { return m(r["s"].(string)) }}
+}
+
+var c05Terms = []c05Term{
+	{"a > 3", []string{"a"}, func(r map[string]any) bool { return numField(r, "a") > 3 }},
+	{"a <= 5", []string{"a"}, func(r map[string]any) bool { return numField(r, "a") <= 5 }},
+	{"b >= 2.5", []string{"b"}, func(r map[string]any) bool { return numField(r, "b") >= 2.5 }},
+	{"b < 7", []string{"b"}, func(r map[string]any) bool { return numField(r, "b") < 7 }},
+	{"s = 'x'", []string{"s"}, func(r map[string]any) bool { return r["s"] == "x" }},
+	{"s != 'y'", []string{"s"}, func(r map[string]any) bool { return r["s"] != "y" }},
+	{"f = true", []string{"f"}, func(r map[string]any) bool { return r["f"] == true }},
+	{"o.x > 1", []string{"o.x"}, func(r map[string]any) bool {
+		o, _ := r["o"].(map[string]any)
+		return numField(o, "x") > 1
+	}},
+	{"a + b > 6", []string{"a", "b"}, func(r map[string]any) bool { return numField(r, "a")+numField(r, "b") > 6 }},
+	{"a = 4", []string{"a"}, func(r map[string]any) bool { return numField(r, "a") == 4 }},
+	likeTerm("a%"), likeTerm("%ab"), likeTerm("a%ab"), likeTerm("%ab_"), likeTerm("a_%b"), likeTerm("%a%b%"), likeTerm("x%"),
+}
+
+// hasField: the row carries the (possibly dotted) column as a non-NULL value.
+func hasField(row map[string]any, path string) bool {
+	cur := any(row)
+	for _, seg := range strings.Split(path, ".") {
+		m, ok := cur.(map[string]any)
+		if !ok {
+			return false
+		}
+		cur, ok = m[seg]
+		if !ok || cur == nil {
+			return false
+		}
+	}
+	return true
+}
+
+// genC05Where returns the WHERE clause, the indices of its terms and the connector.
+func genC05WhereTerms(rng *simrt.Rand) (string, []int, string) {
 	if rng.Bool(0.3) {
-		return ""
+		return "", nil, ""
 	}
-	terms := []string{"a > 3", "a <= 5", "b >= 2.5", "b < 7", "s = 'x'", "s != 'y'", "f = true", "o.x > 1", "a + b > 6", "a = 4"}
 	n := 1 + rng.Intn(3)
+	conn := []string{" AND ", " OR "}[rng.Intn(2)]
 	var parts []string
+	var idx []int
 	for i := 0; i < n; i++ {
-		parts = append(parts, terms[rng.Intn(len(terms))])
+		k := rng.Intn(len(c05Terms))
+		idx = append(idx, k)
+		parts = append(parts, c05Terms[k].SQL)
 	}
-	return " WHERE " + strings.Join(parts, []string{" AND ", " OR "}[rng.Intn(2)])
+	return " WHERE " + strings.Join(parts, conn), idx, strings.TrimSpace(conn)
 }
 
 func genC05Row(rng *simrt.Rand, i int) Row {
@@ -92,7 +163,15 @@ func genC05Row(rng *simrt.Rand, i int) Row {
 		row["b"] = float64(rng.Intn(20)) / 2
 	}
 	if rng.Bool(0.8) {
-		row["s"] = []string{"x", "y", "", "x y", "it's"}[rng.Intn(5)]
+		if rng.Bool(0.5) {
+			row["s"] = []string{"x", "y", "", "x y", "it's"}[rng.Intn(5)]
+		} else {
+			var sb strings.Builder // strings over {a,b}: overlapping false starts for LIKE
+			for k := rng.Intn(7); k > 0; k-- {
+				sb.WriteByte("aab"[rng.Intn(3)])
+			}
+			row["s"] = sb.String()
+		}
 	}
 	if rng.Bool(0.7) {
 		row["f"] = rng.Bool(0.5)
@@ -122,7 +201,12 @@ func genC05Row(rng *simrt.Rand, i int) Row {
 
 func (c05) Gen(rng *simrt.Rand, seed uint64, tier string) *Case {
 	c := &Case{X: map[string]any{}}
-	sql, items, star := genC05Query(rng)
+	sql, items, star, widx, wconn := genC05Query(rng)
+	var widxAny []any
+	for _, k := range widx {
+		widxAny = append(widxAny, k)
+	}
+	c.X["where_terms"], c.X["where_conn"] = widxAny, wconn
 	var itemsAny []any
 	for _, it := range items {
 		itemsAny = append(itemsAny, map[string]any{"out": it.Out, "kind": it.Kind, "src": it.Src, "lit": it.Lit, "flat": it.Flat})
@@ -312,6 +396,15 @@ func (c05) Run(e *Env) {
 			items = append(items, it)
 		}
 	}
+	var wterms []c05Term
+	if l, ok := e.C.X["where_terms"].([]any); ok {
+		for _, x := range l {
+			if k, ok := toInt64(x); ok && int(k) < len(c05Terms) {
+				wterms = append(wterms, c05Terms[k])
+			}
+		}
+	}
+	wconn := e.C.xStr("where_conn")
 	var accepted []string
 	for _, row := range emitted {
 		id := rowID(row)
@@ -331,6 +424,30 @@ func (c05) Run(e *Env) {
 				e.Violate("C05/history-dependent", "value", "row %s: fresh instance result %s, long-running instance %s", id, canon(f), canon(b))
 			}
 			e.Probe("fresh_instance_compared")
+		}
+		if len(wterms) > 0 {
+			judge := true
+			for _, t := range wterms {
+				for _, f := range t.Fields {
+					if !hasField(row, f) {
+						judge = false
+					}
+				}
+			}
+			if judge {
+				want := wconn == "AND"
+				for _, t := range wterms {
+					if wconn == "AND" {
+						want = want && t.Eval(row)
+					} else {
+						want = want || t.Eval(row)
+					}
+				}
+				e.Probe("where_judged_against_reference")
+				if want != bok {
+					e.Violate("C05/where", "", "row %s: WHERE %s is %v for this row, but a result was produced=%v", canon(row), e.C.Insts[0].SQL[strings.Index(e.C.Insts[0].SQL, " WHERE ")+7:], want, bok)
+				}
+			}
 		}
 		if !bok {
 			continue
